@@ -23,7 +23,7 @@ fn spec(t: Tier) -> Spec {
     Spec {
         id: "C09",
         level: "exploration",
-        rule: format!("files named by every string of <= {} characters over {:?} (plus '{{}}', '-a', 'a b', \"a'b\") in one directory, and a directory of names that are not valid UTF-8 (bytes ff, c3, a ff b); argument templates = every list of <= {} arguments over the pieces {:?}; child outcomes {:?} (scripted per invocation; 'missing' = command does not exist); positions of the action {:?}; -exec and -execdir. Slices: all templates x all names (outcome 0, both primaries); all outcomes x positions x primaries on 3 templates with outcomes alternating per file; a binary slice through the find binary. The recorder child logs its argv and cwd: there must be exactly one run per entry on which the action is reached, in visit order (-sorted), each argument = the template with every '{{}}' replaced by the path (t/NAME, or ./NAME with cwd = the parent directory for -execdir) and all other text unchanged, element for element byte-identical; a following labelled -printf fires exactly for the entries whose child exited 0; find's exit status stays 0 whatever the children do. evaluation = one child invocation checked; PATH slice: the command named without a slash, PATH listing first a directory with a non-executable file / a directory of that name and then the real command (-exec/-execdir, ; and +): it must be run as exec would; interleaving slice: `-printf '%p ' -exec echo X ;` (also -execdir, text before and after the action, the {{}} + form) through the binary with standard output a pipe — find's own text for an entry must precede the output of the command run for it; scale templates: one argument holding {{}} 5, 8, 9, 12 and 20 times, 30 arguments {{}}, 70 000 bytes of literal text before and 100 000 after a {{}}; a command that cannot be started for some files only (-execdir ./tool on five directories of which the 1st, 3rd and 5th hold ./tool; -exec/-execdir with {{}} x 600 in one argument and one 250-byte name among short ones): the files before and after get their invocation, the action is false exactly where the command could not be started, find's status stays 0; non-trivial = name with a character other than a and .", t.pick(1, 2), ALPHA, t.pick(2, 3), PIECES, OUTCOMES, POSITIONS),
+        rule: format!("files named by every string of <= {} characters over {:?} (plus '{{}}', '-a', 'a b', \"a'b\") in one directory, and a directory of names that are not valid UTF-8 (bytes ff, c3, a ff b); argument templates = every list of <= {} arguments over the pieces {:?}; child outcomes {:?} (scripted per invocation; 'missing' = command does not exist); positions of the action {:?}; -exec and -execdir. Slices: all templates x all names (outcome 0, both primaries); all outcomes x positions x primaries on 3 templates with outcomes alternating per file; a binary slice through the find binary. The recorder child logs its argv and cwd: there must be exactly one run per entry on which the action is reached, in visit order (-sorted), each argument = the template with every '{{}}' replaced by the path (t/NAME, or ./NAME with cwd = the parent directory for -execdir) and all other text unchanged, element for element byte-identical; a following labelled -printf fires exactly for the entries whose child exited 0; find's exit status stays 0 whatever the children do. evaluation = one child invocation checked; PATH slice: the command named without a slash, PATH listing first a directory with a non-executable file / a directory of that name and then the real command (-exec/-execdir, ; and +): it must be run as exec would; interleaving slice: `-printf '%p ' -exec echo X ;` (also -execdir, text before and after the action, the {{}} + form) through the binary with standard output a pipe — find's own text for an entry must precede the output of the command run for it; scale templates: one argument holding {{}} 5, 8, 9, 12 and 20 times, 30 arguments {{}}, 70 000 bytes of literal text before and 100 000 after a {{}}; low-descriptor slice: 150 directories (one file each, all hard links to one inode, plus a link to it) walked by the binary under RLIMIT_NOFILE 64: -exec/-execdir CMD {{}} ; runs for every file in its directory; several commands per file with find's own text between them on a shared standard output (order as evaluated); a command that cannot be started for some files only (-execdir ./tool on five directories of which the 1st, 3rd and 5th hold ./tool; -exec/-execdir with {{}} x 600 in one argument and one 250-byte name among short ones): the files before and after get their invocation, the action is false exactly where the command could not be started, find's status stays 0; non-trivial = name with a character other than a and .", t.pick(1, 2), ALPHA, t.pick(2, 3), PIECES, OUTCOMES, POSITIONS),
         bound: json!({"max_name_len": t.pick(1, 2), "max_template_args": t.pick(2, 3), "outcomes": OUTCOMES, "positions": POSITIONS}),
         assumptions: vec!["the labelled -printf (truth value) is only used on names that are valid UTF-8; tmpfs; -sorted pins the visit order; children are real processes (fork+exec per file)".into()],
         shards: 0,
